@@ -128,7 +128,13 @@ def copyFromFieldWith (rec : FromRec) (overrides : List (String × String)) (inf
         | .panic w => .panic w
         | .stuck w => .stuck w
         | .ok o =>
-          if known unk null && !isEmpty then
+          if known unk null && isEmpty then
+            -- obj.F = &T{} (nullable); nothing else for a message without fields
+            match writeField info o (if info.isNullable then .ptr (some (.struct [])) else .struct []) with
+            | .ok o' => .ok { st with obj := o' }
+            | .panic w => .panic w
+            | .stuck w => .stuck w
+          else if known unk null && !isEmpty then
             match rec attrs { st with obj := .struct [] } with
             | .panic w => .panic w
             | .stuck w => .stuck w
